@@ -1,4 +1,5 @@
 import Xp.Model.C04
+import Xp.Model.C04Conn
 /-
 C04 — every pipeline step sees exactly the state the function contract promises.
 Theorems about the reference interpreter (Xp/Model/C04.lean), for ALL functions
@@ -236,6 +237,105 @@ theorem events_in_order (step : String) (rs : List Result) :
         rcases List.mem_cons.mp hx with rfl | hx
         · exact absurd hf h
         · exact ⟨x, hx, hf⟩
+
+/-! ### which function instance a step is sent to (PackagedFunctionRunner) -/
+
+section Conn
+open Xp.C04Conn
+
+theorem cget_append_new (c : Conns) (fn ep : String) : cget (cerase c fn ++ [(fn, ep)]) fn = some ep := by
+  have h : (cerase c fn).find? (fun p => decide (p.1 = fn)) = none := by
+    apply List.find?_eq_none.mpr
+    intro p hp
+    have := (List.mem_filter.mp hp).2
+    simpa using this
+  simp [cget, List.find?_append, h]
+
+theorem cget_other (c : Conns) (fn ep m : String) (hm : m ≠ fn) :
+    cget (cerase c fn ++ [(fn, ep)]) m = cget c m := by
+  have h2 : ([(fn, ep)] : Conns).find? (fun p => decide (p.1 = m)) = none := by simp [Ne.symm hm]
+  have h1 : (cerase c fn).find? (fun p => decide (p.1 = m)) = c.find? (fun p => decide (p.1 = m)) := by
+    unfold cerase
+    rw [List.find?_filter]
+    congr 1
+    funext a
+    by_cases h : a.1 = m
+    · simp [h, hm]
+    · simp [h]
+  simp only [cget, List.find?_append, h1, h2]
+  cases List.find? (fun p => decide (p.1 = m)) c <;> rfl
+
+/-- **Right instance.** Whenever a connection is handed out for function `fn`, its target is the
+non-empty endpoint of an Active revision of `fn`, and that is what the cache now holds for
+`fn` — also when a connection to an older endpoint was cached (it is replaced). -/
+theorem conn_target (revs : List Rev) (c : Conns) (fn ep : String)
+    (h : (getConn revs c fn).1 = some ep) :
+    (∃ r ∈ revs, r.fn = fn ∧ r.active = true ∧ r.endpoint = ep ∧ ep ≠ "") ∧
+    cget (getConn revs c fn).2 fn = some ep := by
+  unfold getConn at h ⊢
+  cases hw : wanted revs fn with
+  | none => simp [hw] at h
+  | some e =>
+    simp only [hw] at h ⊢
+    have hee : e = ep := by
+      split at h <;> simpa using h
+    subst hee
+    constructor
+    · unfold wanted at hw
+      split at hw
+      · cases hw
+      · rename_i r hf
+        have hm := List.mem_of_find?_eq_some hf
+        have hp := List.find?_some hf
+        simp only [Bool.and_eq_true, decide_eq_true_eq] at hp
+        split at hw
+        · cases hw
+        · rename_i hne
+          simp only [Option.some.injEq] at hw
+          exact ⟨r, hm, hp.1, hp.2, hw, hw ▸ hne⟩
+    · split
+      · rename_i hc; exact hc
+      · exact cget_append_new c fn e
+
+/-- No connection is handed out when the function has no Active revision or the Active
+revision has no endpoint yet; the cache is left alone. -/
+theorem conn_error_keeps_cache (revs : List Rev) (c : Conns) (fn : String)
+    (h : (getConn revs c fn).1 = none) : (getConn revs c fn).2 = c := by
+  unfold getConn at h ⊢
+  cases hw : wanted revs fn with
+  | none => rfl
+  | some e => simp only [hw] at h; split at h <;> simp at h
+
+/-- Connections of other functions are not touched by a call for `fn`. -/
+theorem conn_others_untouched (revs : List Rev) (c : Conns) (fn m : String) (hm : m ≠ fn) :
+    cget (getConn revs c fn).2 m = cget c m := by
+  unfold getConn
+  cases hw : wanted revs fn with
+  | none => rfl
+  | some e =>
+    simp only []
+    split
+    · rfl
+    · exact cget_other c fn e m hm
+
+theorem filter_split_length {α : Type} (p : α → Bool) (l : List α) :
+    (l.filter fun x => !p x).length + (l.filter p).length = l.length := by
+  induction l with
+  | nil => rfl
+  | cons x xs ih =>
+    simp only [List.filter_cons]
+    cases p x <;> simp only [Bool.not_false, Bool.not_true, if_true, Bool.false_eq_true, if_false, List.length_cons] <;> omega
+
+/-- **Collection.** Garbage collection keeps exactly the connections of installed functions and
+reports how many it closed. -/
+theorem conn_gc (fns : List String) (c : Conns) (p : String × String) :
+    (p ∈ (gc fns c).2 ↔ p ∈ c ∧ p.1 ∈ fns) ∧ (gc fns c).1 + (gc fns c).2.length = c.length := by
+  constructor
+  · simp [gc, List.mem_filter]
+  · simp only [gc]
+    exact filter_split_length (fun p : String × String => fns.contains p.1) c
+
+end Conn
 
 /-! ### non-vacuity -/
 example : (runFetching [⟨"EX", "x1", []⟩]
